@@ -359,7 +359,7 @@ def run(ctx, chk, tier):
             chk.violation("R04.5", MET + al, "alias-of:" + tgt, show(va, 300), show(vt, 300), ctx.where(MET + al))
     cmcls = ctx.db.cls(CM)
     for meth, fn in sorted(CM_METHODS.items()):
-        if meth not in cmcls.methods:
+        if meth not in cmcls.methods and cmcls.find_assign(meth) is None:     # a def, or a callable bound by class-level assignment (generated alias)
             chk.unknown("R04.5", "anchor vanished: ConfusionMatrix.%s" % meth)
             continue
         kw = {"alpha": A} if meth.endswith("_ci") else {}
